@@ -783,6 +783,70 @@ func concurrentCountRun(e *concEnv, iters int) string {
 	return "concurrent-counts-right"
 }
 
+// a CLONE is an independent bundle with a lock of its own: a callback running under a read operation on the one may
+// write to (or read) the other - with a writer to either arriving in between - and every call returns. (A Select
+// shares the parent's lock by design; that case is the pairwise matrix's.)
+func cloneIndependentRun(e *concEnv, watchdog time.Duration) string {
+	orig, err := bundle.ParseBundle(concLoc, e.hdr)
+	if err != nil {
+		return "harness-error"
+	}
+	clone := orig.Clone()
+	done := make(chan string, 4)
+	run := func(name string, f func()) {
+		go func() {
+			defer func() {
+				if recover() != nil {
+					done <- "panic(" + name + ")"
+					return
+				}
+				done <- ""
+			}()
+			f()
+		}()
+	}
+	// 1. iterate over the clone, write to the original from the callback
+	run("AddTokens on the original from ForEach over its clone", func() {
+		n := 0
+		bundle.ForEach(clone, func(t bundle.Token) {
+			if n == 0 {
+				orig.AddTokens(e.extra)
+			}
+			n++
+		})
+	})
+	// 2. iterate over the original, read the clone from the callback, a writer to the clone in between
+	entered, release := make(chan struct{}), make(chan struct{})
+	run("Len of the clone from ForEach over the original", func() {
+		n := 0
+		bundle.ForEach(orig, func(t bundle.Token) {
+			if n == 0 {
+				close(entered)
+				<-release
+				_ = clone.Len()
+			}
+			n++
+		})
+	})
+	run("AddTokens on the clone meanwhile", func() {
+		<-entered
+		go func() { time.Sleep(20 * time.Millisecond); close(release) }()
+		clone.AddTokens(e.extra)
+	})
+	timeout := time.After(watchdog)
+	for i := 0; i < 3; i++ {
+		select {
+		case r := <-done:
+			if r != "" {
+				return r
+			}
+		case <-timeout:
+			return "hang(an operation on a bundle and one on its CLONE wait for each other: they share a lock)"
+		}
+	}
+	return "clone-is-independent"
+}
+
 func famConc(r *Rng, o *Out, tier string) {
 	e := newConcEnv()
 	g, iters, wd := 4, 150, 4*time.Second
@@ -812,6 +876,7 @@ func famConc(r *Rng, o *Out, tier string) {
 	o.emit("(const bundles-sharing-a-cache-stay-apart)", sharedCacheRun(e))
 	o.emit("(const parallel-fetch-complete)", clientParallelFetchRun(e, 8))
 	o.emit("(const concurrent-counts-right)", concurrentCountRun(e, 40*iters))
+	o.emit("(const clone-is-independent)", cloneIndependentRun(e, wd))
 	hangs := 0
 	for _, a := range all {
 		for _, w := range writers {
